@@ -2,7 +2,7 @@
    Only the property theorems, each closed by [exact] and followed by Print Assumptions. *)
 From Coq Require Import List ZArith.
 From MirV Require Import C08.CLayout C08.SysVLayout C08.CClassify C08.SysVClassify C08.StepProofs
-  C08.LayoutProofs C08.ClassifyProofs C08.DisjointProofs C08.TotalProofs C08.SpanClassify C08.SpanFixed.
+  C08.LayoutProofs C08.ClassifyProofs C08.DisjointProofs C08.TotalProofs C08.SpanClassify.
 Import ListNotations.
 Local Open Scope Z_scope.
 
@@ -182,39 +182,34 @@ Theorem bf_sign_enum_eq_sysv_refuted : exists lo hi w, 0 < w /\ lo <= 0 <= hi /\
 Proof. exact bf_sign_refuted_lemma. Qed.
 Print Assumptions bf_sign_enum_eq_sysv_refuted.
 
-(* ------------------------------------------------------------------ gcc's reading of the psABI for
-   bit-fields that extend over an eightbyte boundary (only unnamed ones in under-aligned member
-   aggregates can): [sysv_classify_g] gives INTEGER to every eightbyte such a bit-field touches. *)
+(* ------------------------------------------------------------------ bit-fields that extend over an
+   eightbyte boundary (only unnamed ones in under-aligned member aggregates can).  gcc gives INTEGER
+   to every eightbyte such a bit-field touches; SysVClassify (merge_span) says so, and the repaired
+   classify_fields (/repo 21222098 = fixes/C08-9, CClassify.qmerge_span) does so: the theorems above
+   are about these and carry no guard on bit-fields.  The rule c2mir had before the fix
+   ([classify_arg_head]: the eightbyte of the first bit only) is kept for the record: *)
 
-(* without such a bit-field ([no_straddle], executable) it is the specification used above ... *)
-Theorem sysv_classify_g_eq : forall t, no_straddle t = true -> sysv_classify_g t = sysv_classify t.
-Proof. exact sysv_classify_g_eq_lemma. Qed.
-Print Assumptions sysv_classify_g_eq.
+(* where no bit-field straddles ([no_straddle], executable) it was the repaired rule ... *)
+Theorem classify_head_eq : forall t, no_straddle t = true -> classify_arg_head t = classify_arg t.
+Proof. exact classify_head_eq_lemma. Qed.
+Print Assumptions classify_head_eq.
 
-(* ... so c2mir classifies as gcc does on every well-formed struct/union free of them *)
-Theorem classify_eq_gcc_partial : forall t,
+(* ... hence gcc's *)
+Theorem classify_head_eq_gcc_partial : forall t,
   wf_ty t = true -> is_agg t = true -> no_straddle t = true ->
-  option_map (map tr) (classify_arg t) = option_map (map pad_int) (sysv_classify_g t).
-Proof. exact classify_eq_gcc_partial_lemma. Qed.
-Print Assumptions classify_eq_gcc_partial.
+  option_map (map tr) (classify_arg_head t) = option_map (map pad_int) (sysv_classify t).
+Proof. exact classify_head_eq_gcc_partial_lemma. Qed.
+Print Assumptions classify_head_eq_gcc_partial.
 
-(* with one, the tree as audited deviates (fixes/C08-9.patch):
-   struct { int i; struct { char c; long : 40; } s; float f; } is INTEGER,INTEGER for gcc and
-   INTEGER,SSE for c2mir - and no padding eightbyte is involved *)
-Theorem classify_eq_gcc_refuted : exists t,
+(* elsewhere it was not: struct { int i; struct { char c; long : 40; } s; float f; } is
+   INTEGER,INTEGER for gcc (and for the repaired c2mir) and was INTEGER,SSE - and no padding
+   eightbyte is involved *)
+Theorem classify_head_eq_gcc_refuted : exists t,
   wf_ty t = true /\ is_agg t = true /\ no_pad t = true /\
-  option_map (map tr) (classify_arg t) <> option_map (map pad_int) (sysv_classify_g t).
+  option_map (map tr) (classify_arg_head t) <> option_map (map pad_int) (sysv_classify t) /\
+  option_map (map tr) (classify_arg t) = sysv_classify t.
 Proof.
-  exists straddle_witness. destruct classify_gcc_refuted_lemma as (H1 & H2 & H3 & _ & H5 & H6).
-  repeat (split; [assumption|]). rewrite H5, H6. discriminate.
+  exists straddle_witness. destruct classify_head_refuted_lemma as (H1 & H2 & H3 & _ & H5 & H6 & H7).
+  repeat (split; [assumption|]). rewrite H5, H6, H7. split; [discriminate | reflexivity].
 Qed.
-Print Assumptions classify_eq_gcc_refuted.
-
-(* c2mir WITH fixes/C08-9.patch ([classify_arg_g]: a bit-field marks every qword from its first to
-   its last bit) classifies every well-formed struct/union as gcc does, without any guard on
-   bit-fields: the patch is complete (padding-only eightbytes stay the known finding). *)
-Theorem classify_fixed_eq_gcc_total : forall t,
-  wf_ty t = true -> is_agg t = true ->
-  option_map (map tr) (classify_arg_g t) = option_map (map pad_int) (sysv_classify_g t).
-Proof. exact classify_g_eq_gcc_total_lemma. Qed.
-Print Assumptions classify_fixed_eq_gcc_total.
+Print Assumptions classify_head_eq_gcc_refuted.
